@@ -860,7 +860,7 @@ def g19(repo, res):
 
 def run(repo, res, tier):
     res.rules = ["G1 reset/DEFAULTS vs property tree", "G2 alias-free properties", "G3 leaf setters validate", "G4 no caller dict mutated/captured", "G5 precedence dataflow in get_style", "G6 no memoisation on the style path", "G7 temporary style removed on all exits", "G8 exact validation of style names", "G5b None-filters not truthiness", "REC-FWD style keywords forwarded through recursion", "G4b style setter adopts no foreign style object", "G10 no preset values in style constructors",
-                 "G12 generic families before specific ones", "G13 lazy style kwargs not bypassed", "G13b rejected style kwargs stay pending", "G14 style copies are deep", "G15 show() flattens every style keyword", "G16 admitted-value tables are collections, not strings", "G17 DisplayContext.reset forgets everything", "G18 sequence-valued leaves store a copy", "G19 name matching switched off only at triaged internal sites", "G23 value patterns matched exactly", "G24 announced ranges are tested"]
+                 "G12 generic families before specific ones", "G13 lazy style kwargs not bypassed", "G13b rejected style kwargs stay pending", "G14 style copies are deep", "G15 show() flattens every style keyword", "G16 admitted-value tables are collections, not strings", "G17 DisplayContext.reset forgets everything", "G18 sequence-valued leaves store a copy", "G19 name matching switched off only at triaged internal sites", "G23 value patterns matched exactly", "G24 announced ranges are tested", "G25 parent-constructor arguments line up with the parent's parameters"]
     g1(repo, res)
     g2_g3(repo, res)
     import origin_rules
@@ -879,6 +879,10 @@ def run(repo, res, tier):
     g19(repo, res)
     g20_g21(repo, res)
     g23_g24(repo, res)
+    # G25: the constructor notation `style={..}` reaches the style slot of every class
+    import rules_argalign
+    n25 = rules_argalign.run(repo, res, "G25", lambda mn: mn.startswith("magpylib._src.obj_classes"))
+    res.require(n25 >= 12, f"G25: only {n25} parent-constructor calls found in the object classes")
     import rules_domain
     rules_domain.sets_are_collections(repo, res, 'G16')
     res.assumptions += ["property tree links are the validate_property_class(val, name, Class, self) calls in the setters",
